@@ -130,6 +130,9 @@ class Run:
                           kernel_overlap_jobs=0, issue_blocked_on_wait=0)
         self.ev = hashlib.blake2b(digest_size=8)
         self.events = [] if record_events else None
+        self.track_dead_stores = False
+        self.was_read = None
+        self.dead_stores = []
         self.states = set()
         self.deadlock = False
 
@@ -156,6 +159,8 @@ class Run:
             return None
         space, pa, mask = r
         t = self.mem.tags[space][pa]
+        if self.track_dead_stores:
+            self.was_read.setdefault(space, np.ones(len(self.mem.tags[space]), bool))[pa] = True
         if check:
             self._check_tags(op, what, region, addrs if mask is None else addrs[mask], t)
         if mask is not None:
@@ -175,6 +180,15 @@ class Run:
         space, pa, mask = r
         if mask is not None and isinstance(tag, np.ndarray):
             tag = tag[mask]
+        if self.track_dead_stores and what == "ofm":
+            wr = self.was_read.setdefault(space, np.ones(len(self.mem.tags[space]), bool))
+            old = self.mem.tags[space][pa]
+            mine_lo, mine_hi = self.uid_base << 20, (self.uid_base + len(self.p.prog)) << 20
+            dead = (~wr[pa]) & (old >= mine_lo) & (old < mine_hi) & ((old >> 20) != (self.uid_base + op.idx))
+            if dead.any() and len(self.dead_stores) < 8:
+                i = int(np.argmax(dead))
+                self.dead_stores.append(dict(op=op.idx, earlier_op=int(old[i] >> 20) - self.uid_base, addr=int(addrs[i] if mask is None else addrs[mask][i]), n_bytes=int(dead.sum())))
+            wr[pa] = False
         self.mem.tags[space][pa] = tag
 
     def _tag(self, op, job):
